@@ -89,8 +89,8 @@ PROTO = "rpyc/core/protocol.py::Connection."
 ATTR_FUNCS = [PROTO + n for n in ("_check_attr", "_access_attr", "_handle_getattr", "_handle_setattr", "_handle_delattr",
                                   "_handle_call", "_handle_callattr", "_handle_cmp", "_handle_ctxexit", "_handle_oldslicing")]
 SERVICE_HOOKS = ["rpyc/core/service.py::Service._rpyc_delattr", "rpyc/core/service.py::Service._rpyc_setattr"]
-ALL_CONTRACTS = ["brine", "compat", "externals", "stream", "channel", "protocol_attr", "colls", "protocol_box", "protocol_core", "async_", "protocol_close", "lib", "netref", "protocol_handlers", "scenarios", "vinegar", "classic"]
-ALL_SPECS = ["brine_spec", "channel_spec", "policy_spec", "refcount_spec", "protocol_spec", "box_spec", "netref_spec", "vinegar_spec"]
+ALL_CONTRACTS = ["brine", "compat", "externals", "stream", "channel", "protocol_attr", "colls", "protocol_box", "protocol_core", "async_", "protocol_close", "lib", "netref", "protocol_handlers", "scenarios", "vinegar", "classic", "registry"]
+ALL_SPECS = ["brine_spec", "channel_spec", "policy_spec", "refcount_spec", "protocol_spec", "box_spec", "netref_spec", "vinegar_spec", "registry_spec"]
 
 PLANS["C06"] = dict(
     title="Attribute access by the peer follows the connection's policy, and only its own",
@@ -428,5 +428,33 @@ PLANS["C20"] = dict(
         "NOT covered: upload_package / upload_module (path discovery through distutils), obtain / deliver (C03)",
         "I/O errors (OSError from open/read/write/listdir/makedirs, any failure of a remote call) propagate: the statement is about "
         "transfers that complete",
+    ],
+)
+
+
+REG = "rpyc/utils/registry.py::RegistryServer."
+PLANS["C18"] = dict(
+    title="The registry reflects exactly the live registrations and cannot be knocked over (table and serving loop)",
+    contracts=ALL_CONTRACTS, specs=ALL_SPECS, table="module",
+    targets=[REG + n for n in ("_add_service", "_remove_service", "cmd_register", "cmd_unregister", "_work")],
+    lemmas=[], compositions=[], native_focus=[], design_ref="DESIGN.md section 4, C18",
+    assumptions=COMMON_ASSUMPTIONS + [
+        "abstract view: the set of live registrations (name, address) with the time of their last refresh; the code's nested table "
+        "name -> {address: time} is modelled as a dict of dicts over two-dimensional arrays (an inner dict has no state of its own)",
+        "VERIFIED: _add_service registers / refreshes exactly (name, address) at the current time and notifies exactly when it is "
+        "new; _remove_service removes exactly (name, address), drops an emptied name, and notifies exactly when it was registered "
+        "(fix F4); both leave every other registration untouched (whole-view frame); cmd_register registers exactly (host, port) "
+        "under the upper-case form of each name; cmd_unregister removes exactly (host, port) under each name; the serving loop "
+        "_work: for ANY datagram (any plain value in place of (magic, command, args), undecodable bytes, wrong arity / types) no "
+        "Exception ends the loop (fix F3), the table's invariant is kept, and a reply is sent only for a command that returned",
+        "ASSUMED interface contract: cmd_query (sorted() over a dict view with a key function is outside the subset): it answers "
+        "with an encodable tuple and prunes through _remove_service. So `exactly the servers ... oldest refresh first` and the "
+        "pruning interval are NOT verified",
+        "ASSUMED: _recv / _send of the concrete servers as library models (a datagram or socket.error / socket.timeout; sending "
+        "swallows socket errors); the hooks on_service_added / on_service_removed may raise anything; time.time() is a ghost clock",
+        "NOT covered: the TCP server's blocking recv on an accepted socket (a silent TCP client stalls the loop: finding F8 of "
+        "DESIGN.md 6 needs a model of blocking I/O, out of reach), the registry clients (registrars), case-insensitivity of query "
+        "(inside cmd_query)",
+        "getattr(self, 'cmd_%s' % x, None) resolves to the class's method of that name; `%` formatting keeps the literal prefix",
     ],
 )
